@@ -74,7 +74,7 @@ def wire(inst, queries):
   L.append('assignable')
   for q in queries:
     if q[0] == 'setindex':
-      L.append('setindex ' + (','.join(q[1]) if q[1] else '-'))
+      L.append('setindex ' + (','.join(map(str, q[1])) if q[1] else '-'))
     elif q[0] == 'trunc':
       L.append(f'trunc {q[1]}')
     elif q[0] == 'agg':
@@ -168,7 +168,7 @@ def check_case(out, inst, model_lines, queries):
       continue
     if q[0] == 'setindex':
       try:
-        data.geo_index = list(q[1])
+        data.geo_index = tuple(q[1]) if (len(q) > 2 and q[2] == 'tuple') else list(q[1])      # both are the documented type
         cur = list(q[1])
         agg_real.append('ok')
         if any(g not in data.assignable for g in q[1]):
@@ -273,6 +273,11 @@ def run(out, tier, model_ok=True):
       # a rejected reconcile prints "err ValueError" and the following lines still appear
       model_out[id(c)] = (outl[pos:pos + exp], q)
       pos += exp
+  cdir = os.path.join(core.VERIF, 'corpus', 'C15')
+  for fn in sorted(os.listdir(cdir)) if os.path.isdir(cdir) else []:      # past failures run first (oracle only)
+    with open(os.path.join(cdir, fn)) as f:
+      cc = json.load(f)
+    check_case_with_plan(out, cc['inst'], None, [tuple(x) for x in cc['queries']])
   kinds = {}
   for c in cases:
     kinds[c['elig_kind']] = kinds.get(c['elig_kind'], 0) + 1
@@ -304,11 +309,13 @@ def plan_queries(rng, inst):
     else:
       idx = rng.sample(assignable, rng.randint(1, len(assignable)))
     last = idx
-    queries.append(('setindex', idx))
+    queries.append(('setindex', idx, rng.choice(['list', 'list', 'tuple'])))
     queries.append(('agg', idx, sorted(rng.sample(range(len(idx)), rng.randint(0, len(idx))))))
   bad = [g for g in table if g not in assignable]
   if bad:
     queries.append(('setindex', [bad[0]] + assignable[:1]))
+  if assignable and rng.random() < 0.3:
+    queries.append(('setindex', assignable[:1] + [rng.choice([7, 2.5])]))      # an ID that is not even a string: unassignable
   if assignable:
     # what TBRMatchedMarkets.__init__ does: keep the most recent n dates, then install an index and aggregate
     n = rng.randint(1, len(dates) + 2)
